@@ -505,7 +505,7 @@ def program_b(chain, masks, in_math_ok=True):
                 s['B'] = 'G%d' % lvl
         if m & 4:
             st['C'] = 'K' + 'ab'[lvl % 2]
-        if m & 8 and 'textbf' not in chain[:i + 1]:
+        if m & 8 and 'textbf' not in chain[:i + 1] and 'boxmix' not in chain[:i + 1]:
             # a category change inside a macro argument cannot affect text that was tokenized when the
             # argument was read (TeX's rule as well): under \textbf{...} it is invisible
             st['at'] = True
@@ -514,7 +514,7 @@ def program_b(chain, masks, in_math_ok=True):
             for s in stack:
                 s['q'] = bool(lvl % 2)
         body += PROBE
-        exp.append(probe_text(st))
+        exp.append(('bcf' if c == 'boxmix' else '') + probe_text(st))
     for i in reversed(range(len(chain))):
         c = chain[i]
         st = stack.pop()
